@@ -43,7 +43,7 @@ P("C19", [("K13", None), ("K13O", None), ("V15", None)],
   "model_checking",
   "Kani on the real set_priorities over real petgraph forests: for every labelled DAG on <= 3 impls (thorough: selected 4-impl DAGs) no panic, every impl gets a priority, "
   "and priorities strictly increase along every specialization edge; SpecializationPriorities::insert is replaced by its contract there (kani::stub); that contract is proved, unbounded, by Verus on the verbatim "
-  "text of insert over an abstract IndexMap (and against the real IndexMap by Kani in the thorough tier). BOUNDED in the number of impls (exhaustive below the bound). "
+  "text of insert over an abstract IndexMap. BOUNDED in the number of impls (exhaustive below the bound). "
   "The genuine defect this found (3-impl chain panicked) is repaired in /repo by commit cc02e05.",
   "Assumed: the forest handed to set_priorities is a DAG with edges from less to more special impls (the disjoint/specializes solver queries are not verified); petgraph and indexmap as compiled by Kani.",
   "contract-based verification with Kani: harness contracts + contract stub (kani::stub) for the callee, graphs enumerated concretely")
@@ -58,12 +58,15 @@ P("C05", [("V10", None), ("V3", None), ("V18", None), ("K11", r"^k11_stack")],
   "Not reached: push_auto_trait_impls / constituent types (iterator+closure code), delayed subgoals in the SLG engine, cache rollback. Assumed: finite goals, trait flags abstract.",
   "contract-based deductive verification: Verus on mechanically extracted function text")
 
-P("C03", [("V5", None)],
+P("C03", [("V5", None), ("V20", None)],
   "proof",
   "Partial (function-level links): Verus proves on the verbatim text of the SLG answer stream that every yielded answer is the table's answer at the stream's current index with "
   "binders, substitution, constraints and ambiguity flag unchanged and no delayed subgoals (answers awaiting refinement are never yielded), that next_answer strictly advances the "
-  "index (an index is handed out at most once) and that QuantumExceeded is only reported when the caller's callback returned false. Unbounded, partial correctness.",
-  "Not reached: Table::push_answer's duplicate detection (hash-map Entry API), soundness/completeness of the state machine behind ensure_root_answer (havoc here), "
+  "index (an index is handed out at most once) and that QuantumExceeded is only reported when the caller's callback returned false. On the verbatim text of "
+  "merge_answer_into_strand it proves that consuming answer k of a positive subgoal queues, on the table being evaluated and right behind what was queued, a copy of the strand asking for answer k+1 "
+  "(unless the answer is the trivial substitution or was set aside as ambiguous), that nothing else is queued, that no stored answer changes, and that merging an ambiguous answer marks the strand ambiguous. "
+  "Unbounded, partial correctness.",
+  "Not reached: Table::push_answer's duplicate detection (hash-map Entry API), soundness/completeness of the rest of the state machine behind ensure_root_answer (havoc here), "
   "the solve_multiple callback loop (&mut dyn FnMut is outside Verus), termination.",
   "contract-based deductive verification: Verus on mechanically extracted function text, callee havoc contracts, in-place loop invariant")
 
